@@ -97,4 +97,25 @@ CHECKS = {
                 "Trusted: Lean kernel + 3 axioms, C01's correspondence for the model, the harness.",
         "technique": "Lean 4 proof (invariant by induction over parsed chunks) + well-formedness oracle on every real parser",
     },
+    "C06": {
+        "text": "Lean theorems over a decision-by-decision port of the JSON-schema emitter and parser (type tables regenerated from the source on "
+                "every run): required <=> not Optional for every interface; every emitted schema satisfies a decidable fragment of the 2020-12 "
+                "meta-schema; every emitted default validates against its property; a Literal becomes the sorted pattern, which accepts exactly the "
+                "strings CONTAINING a member (so 'exactly its members' is proved false on a witness); round trip modulo Literal members as a set, "
+                "with the None-default and single-member-Literal negations. Tied to the code by dict equality, and the validity fragment is tied to "
+                "jsonschema's Draft202012Validator (also on invalid mutants) and to re.search.",
+        "note": "Partial where the statement is false of the code (4 known findings). Assumed: names unique (dict keys); description model on the "
+                "trigger-free prose domain. Trusted: Lean kernel + 3 axioms, table translator, jsonschema 4.26 in python3-vt as oracle for the fragment.",
+        "technique": "Lean 4 proof (induction over parameter lists on a faithful port) + regenerated tables + differential correspondence incl. real meta-schema",
+    },
+    "C12": {
+        "text": "Lean theorems over a faithful port of _conform_filename / ground_truth / RewriteAtQuery / find_in_ast / cmp_ast on the shared flat AST, "
+                "with the per-format emit/parse as parameters constrained by stated laws (C02 round trip): frame (statements outside the target unchanged, "
+                "for every module and every run incl. failing ones), class targets and created files conform, truth unchanged, idempotence on the regions "
+                "where it holds; the full statement is kept as a def and its negation is proved on witnesses for function/argparse targets (the pinned "
+                "defect) and for dotted appends. Tied to the real CLI (python -m cdd sync, 1-3 runs in temp dirs) by comparing every file after every run.",
+        "note": "Partial: emit/parse are parameters (laws assumed = C02/C08); compound statements are opaque; 8 known findings incl. the unrepairable "
+                "'function/argparse targets are never rewritten'. Trusted: Lean kernel + 3 axioms, the correspondence harness.",
+        "technique": "Lean 4 proof (frame/idempotence over a faithful rewrite model, parametric emitters) + CLI-history correspondence",
+    },
 }
